@@ -12,16 +12,19 @@ inductive Frame where
   | bin (o : Nat) (r : Tree)
   | typed (o n : Nat)
   | post (o c : Nat) (e : Tree)
+  | arrow (o : Nat) (s a : Tree)
 
 def Frame.apply : Frame → Tree → Tree
   | .bin o r, l => .bin o l r
   | .typed o n, l => .typed o l n
   | .post o c e, l => .post o c l e
+  | .arrow o s a, l => .arrow o l s a
 
 def Frame.toks : Frame → List Tok
   | .bin o r => .op o :: r.yield
   | .typed o n => [.op o, .ty n]
   | .post o c e => .op o :: (e.yield ++ [.close c])
+  | .arrow o s a => .op o :: (s.yield ++ a.yield)
 
 def plug (l : Tree) : List Frame → Tree
   | [] => l
@@ -40,11 +43,13 @@ def need : Tree → Nat
   | .bin _ l r => 1 + need l + need r
   | .typed _ l _ => 1 + need l
   | .post _ _ l e => 1 + need l + need e
+  | .arrow _ l f a => 1 + need l + need f + need a
 
 def Frame.need : Frame → Nat
   | .bin _ r => 1 + EPV.Pratt.need r
   | .typed _ _ => 1
   | .post _ _ e => 1 + EPV.Pratt.need e
+  | .arrow _ s a => 1 + EPV.Pratt.need s + EPV.Pratt.need a
 
 def needs : List Frame → Nat
   | [] => 0
@@ -85,6 +90,9 @@ def StepOK (T : Tbl) (rbp : Nat) (left : Tree) (fr : Frame) (after : List Tok) :
   | .typed o _ => ∃ deny, T.led o = .typed deny ∧ rbp < T.lbp o ∧ deny.contains left.head = false
   | .post o c e => ∃ eo deny, T.led o = .bracket c eo deny ∧ rbp < T.lbp o ∧ deny.contains left.head = false ∧
       BodyOK T eo e c after
+  | .arrow o s a => ∃ sr ar start g, T.led o = .arrow sr ar start g ∧ rbp < T.lbp o ∧
+      rhsOk start (s.yield ++ (a.yield ++ after)) = true ∧ ParsesAt T sr s (a.yield ++ after) ∧ ParsesAt T ar a after ∧
+      a.head = 2 * g + 1
 
 def FramesOK (T : Tbl) (rbp : Nat) : Tree → List Frame → List Tok → Prop
   | _, [], rest => headLe T (some rbp) rest
@@ -150,6 +158,13 @@ theorem loop_complete (T : Tbl) (rbp : Nat) : ∀ (frs : List Frame) (left : Tre
           | atom k n => simp only [List.cons_append] at he' ⊢; simp [he']; exact ih'
           | ty n => simp only [List.cons_append] at he' ⊢; simp [he']; exact ih'
           | op o' => simp only [List.cons_append] at he' ⊢; simp [he']; exact ih'
+    | arrow o s a =>
+      obtain ⟨sr, ar, start, g, hled, hlt, hstart, hs, ha, hhead⟩ := hstep
+      have hs' := hs f' (by simp only [needs, Frame.need] at hf; omega)
+      have ha' := ha f' (by simp only [needs, Frame.need] at hf; omega)
+      simp only [ctxToks, Frame.toks, List.cons_append, loop, if_pos hlt, hled, List.append_assoc]
+      simp [hstart, hs', ha', hhead]
+      exact ih'
 
 /-- what the `nud` of the leftmost unit needs -/
 def HeadOK (T : Tbl) (h : Tree) (after : List Tok) : Prop :=
@@ -169,6 +184,7 @@ theorem expr_complete (T : Tbl) (rbp : Nat) (h : Tree) (frs : List Frame) (rest 
   | bin => simp [HeadOK] at hh
   | typed => simp [HeadOK] at hh
   | post => simp [HeadOK] at hh
+  | arrow => simp [HeadOK] at hh
   | atom k n =>
     obtain ⟨f', rfl⟩ : ∃ f', f = f' + 1 := ⟨f - 1, by simp [need] at hfuel; omega⟩
     simp only [Tree.yield, List.cons_append, List.nil_append, expr]
